@@ -21,7 +21,20 @@ def run(model, rep, tier):
     r5_own_class_and_name(ctx, rep)
     r6_writer_total_on_strings(ctx, rep)
     r7_one_file_per_suite(ctx, rep)
+    r8_record_is_total(ctx, rep)
     rep.units['cfg'] = ctx.cfg_stats
+
+
+def r8_record_is_total(ctx, rep, R='C17.R8'):
+    rep.rule(R, 'every outcome can be recorded: the functions that turn a test into (suite, name, '
+             'class) for the XML report do not fail on a value that may be absent (rules/nullable.py, '
+             'restricted to formatter.py): a nullable helper result is only subscripted / joined / '
+             'iterated where None is excluded -- otherwise "every test that passed appears exactly '
+             'once" fails with a TypeError for that kind of test (and the run is aborted, C04)')
+    from . import nullable
+    n = nullable.check(ctx, rep, R, scope=lambda fi: fi.module.name == 'formatter')
+    n += nullable.check_locals(ctx, rep, R, scope=lambda fi: fi.module.name == 'formatter')
+    rep.assume('%s: %d nullable results / locals inside formatter.py followed to their uses' % (R, n))
 
 
 def regex_class_ranges(pattern):
